@@ -100,7 +100,11 @@ M("ss_ub_minus_x", "(ub - x) instead of (ub - xc) in the truncation", ["C09"],
   ("lbfgsb/subspacemin.py", "                dHat[mask] > 0, (ub - xc)[free_vars][mask], (lb - xc)[free_vars][mask]",
    "                dHat[mask] > 0, (ub - x)[free_vars][mask], (lb - x)[free_vars][mask]"))
 M("ss_no_truncation", "truncation to the box dropped", ["C09"],
-  ("lbfgsb/subspacemin.py", "    return xc + alpha_star * Z @ dHat", "    return xc + Z @ dHat"))
+  ("lbfgsb/subspacemin.py", "    return np.clip(xc + alpha_star * Z @ dHat, lb, ub)", "    return xc + Z @ dHat"))
+M("ss_no_projection", "subspace point returned unprojected (reverse of fix b3344a3); shows as a spurious failed line search when the point lands one ulp outside a bound a variable rests on: rare, probabilistic in the quick tier", ["C09", "C06"],
+  ("lbfgsb/subspacemin.py", "    return np.clip(xc + alpha_star * Z @ dHat, lb, ub)", "    return xc + alpha_star * Z @ dHat"))
+M("mats_no_refresh_on_cholesky_failure", "LinAlgError of the Cholesky factorisation escapes (reverse of fix dc83f52); needs curvatures spanning >16 decades: probabilistic", ["C04"],
+  ("lbfgsb/bfgsmats.py", "        except np.linalg.LinAlgError:\n            # nonpositive definiteness", "        except ZeroDivisionError:\n            # nonpositive definiteness"))
 M("ss_K_theta", "K built with 1/theta dropped", ["C09"],
   ("lbfgsb/subspacemin.py", "    K[:m, :m] = -mats.D - (1 / mats.theta) * YTZZTY", "    K[:m, :m] = -mats.D - YTZZTY"))
 M("ss_r_no_memory", "reduced gradient without the memory term", ["C09"],
